@@ -44,3 +44,40 @@ add("C20", "E2/E4", "model_checking",
     "placement per request. States are store contents; every transition runs on the real backends.",
     "In-memory S3 is strongly consistent; documented asymmetries (directories as keys) are checked against the S3 backend's own spec.",
     "DESIGN.md 3 C20")
+add("C02", "E1", "model_checking",
+    "stateless interleaving exploration (readers || writers) on the real code with state cache",
+    "Every interleaving of one reader (two successive reads through one handle, each read API) with each writer kind "
+    "(append, multi-append transaction, delete, rollback, commit failing at the pointer write), local and CAS-S3, unbounded; "
+    "2 writers / 2 readers under a stated preemption bound. Each read must equal the content of a version that was current "
+    "inside the read's interval, and never move backwards.",
+    "Same engine assumptions as C01; pandas APIs not installed; thread-pool workers of parallel scans run unscheduled under their parent's baton.",
+    "DESIGN.md 3 C02")
+add("C11", "E4", "exploration",
+    "exhaustive small-scope enumeration of (column type, value class, schema-argument variant, handle, api, 2-append history) against an independent reference",
+    "Every combination of column type x value class x schema-argument variant x handle freshness x append API over "
+    "two-append histories is run on the real API; rejected appends must leave the independently read table state unchanged, "
+    "accepted ones must return exactly the supplied values through every read API and keep filters correct.",
+    "Value classes and types as enumerated in the evidence rule; canonical value representation written independently (float32 rounding, date/timestamp).",
+    "DESIGN.md 3 C11")
+add("C12", "E4", "exploration",
+    "exhaustive small-domain enumeration of tables x filter grammar x API configurations against a 3-valued Python evaluator",
+    "All table layouts over a small value domain (NULL, a<b<c, NaN) x every operator/alias/set/between/null filter and "
+    "conjunction x every scan API, option and projection are executed on the real API; baseline judged per row by an "
+    "independent SQL three-valued evaluator, all other API configurations must agree with the baseline.",
+    "Rows whose verdict hinges on NaN ordering are compared across APIs only (the statement fixes NULL semantics, not NaN ordering).",
+    "DESIGN.md 3 C12")
+add("C13", "E4", "exploration",
+    "exhaustive decision-table enumeration (file value multiset x operator x literal) + bound round trips + pruned-vs-unpruned scans",
+    "Every file value multiset up to a size bound over (NULL, NaN, a<b<c) x every operator x every literal class is decided "
+    "by the real pruning code with bounds from the real bound computation and manifest round trip, against the real compute "
+    "engine as ground truth; end-to-end scans are compared with pruning replaced by the identity.",
+    "The compute engine that all scans share is the ground truth for 'a row can satisfy the predicate'; min/max of NaN-containing columns is not judged, only soundness of skipping.",
+    "DESIGN.md 3 C13")
+add("C17", "E4", "exploration",
+    "exhaustive path-grammar enumeration x entry points x symlink layouts with os-level access tracing",
+    "Every path over a 9-component grammar up to depth 3/4 (plus absolute and hand-listed escapes) x 22 entry points x "
+    "{root direct, root via symlink} is executed on the real code; every traced os-level content access must lie inside "
+    "the canonical root, the sentinel tree outside must be unchanged, and escaping denotations must raise.",
+    "Existence/stat probes of outside paths are counted, not judged (the statement lists read/write/delete/rename/list); "
+    "escaping strings that GC only compares (never dereferences) are accepted when the outcome equals a harmless in-root string.",
+    "DESIGN.md 3 C17")
